@@ -9,6 +9,9 @@ def main(args):
     tier = "quick"
     if "--thorough" in args:
         tier = "thorough"; args.remove("--thorough")
+    use_wt = "--worktree" in args          # check each change in a scratch worktree (VERIF_REPO) instead of /repo itself
+    if use_wt:
+        args.remove("--worktree")
     wanted = args
     manifest = json.load(open("/verif/MANIFEST.json"))
     claimed = {c["property_id"] for c in manifest["checks"]}
@@ -21,14 +24,25 @@ def main(args):
         if not os.path.exists(f"/verif/harness/props/{pid.lower()}.py"):
             continue
         patch = f"/verif/seeded/{d}/patch.diff"
-        rc, out = sh(f"git -C /repo apply {patch}")
+        target, env = "/repo", ""
+        if use_wt:
+            target = f"/tmp/seeded_wt_{os.getpid()}"
+            sh(f"rm -rf {target}; git -C /repo worktree prune; git -C /repo worktree add -q --detach {target} HEAD")
+            env = f"VERIF_REPO={target} "
+        rc, out = sh(f"git -C {target} apply {patch}")
         if rc != 0:
-            rows.append((d, "patch does not apply")); print(d, "PATCH FAILS", out[-200:]); continue
+            rows.append((d, "patch does not apply")); print(d, "PATCH FAILS", out[-200:])
+            if use_wt:
+                sh(f"git -C /repo worktree remove --force {target}")
+            continue
         try:
             t0 = time.time()
-            rc, out = sh(f"./vcheck {pid} --tier {tier}", cwd="/verif")
+            rc, out = sh(f"{env}./vcheck {pid} --tier {tier}", cwd="/verif")
         finally:
-            sh("git -C /repo checkout -- .")
+            if use_wt:
+                sh(f"git -C /repo worktree remove --force {target}; git -C /repo worktree prune")
+            else:
+                sh("git -C /repo checkout -- .")
         vio = [l for l in out.split("\n") if l.startswith("VIOLATION")]
         hint = [l for l in out.split("\n") if l.startswith("# ")][:1]
         detected = rc != 0 and bool(vio)
